@@ -845,8 +845,16 @@ func ruleC01d(c *Ctx) {
 				}
 				n := calleeName(&call.Call)
 				if (n == "strings.HasSuffix" || n == "strings.HasPrefix") && taint[call.Call.Args[0]] {
-					if _, isSlice := strip(call.Call.Args[1]).(*ssa.Slice); isSlice {
+					// the literal part of the template token: a slice of it, or the part strings.Cut returns
+					switch lit := strip(singleAssignment(call.Call.Args[1])).(type) {
+					case *ssa.Slice:
 						verifies = true
+					case *ssa.Extract:
+						if cut, ok := lit.Tuple.(*ssa.Call); ok && lit.Index < 2 && !taint[cut.Call.Args[0]] {
+							if cn := calleeName(&cut.Call); cn == "strings.Cut" || cn == "strings.CutPrefix" || cn == "strings.CutSuffix" {
+								verifies = true
+							}
+						}
 					}
 				}
 			})
